@@ -317,6 +317,8 @@ def run(F, res, tier):
     literal_lexemes(F, res, R)
     blanks_are_trivia(F, res, R)
     string_escapes(F, res)
+    from rules import c01 as _c01
+    _c01.lexer_bump_unit(F, res, rule="G10")   # a string with a non-ASCII character is one STRING token: the callback advances by bytes
     delimiters_belong_to_their_node(F, res)
 
 
